@@ -7,7 +7,7 @@ use std::collections::BTreeMap;
 pub enum Tier { Quick, Thorough }
 
 #[derive(Default)]
-pub struct Ob { pub cases: u64, pub failures: Vec<(Value, String)>, pub function: String }
+pub struct Ob { pub cases: u64, pub failures: Vec<(Value, String)>, pub function: String, pub dropped: u64, pub classes: BTreeMap<String, u32> }
 
 pub struct Report {
     pub set: String,
@@ -38,17 +38,23 @@ impl Report {
     pub fn check(&mut self, oid: &str, ok: bool, case: &dyn Fn() -> Value, detail: &dyn Fn() -> String) {
         let o = self.obligations.entry(oid.into()).or_default();
         o.cases += 1;
-        // keep up to 300 failing cases per obligation so that a NEW failure class is not hidden behind a listed one
-        if !ok && o.failures.len() < 300 { o.failures.push((case(), detail())); }
-        else if !ok { o.failures.push((Value::Null, String::new())); o.failures.truncate(301); }
+        // keep the first 300 failing cases per obligation, and beyond that up to 25 per CLASS of case (the case's field names
+        // and string-valued fields, e.g. its "kind" / "op"), so that a new failure class is never hidden behind a listed one
+        if !ok {
+            let c = case();
+            let class = match &c { Value::Object(m) => m.iter().map(|(k, v)| match v { Value::String(x) if x.len() <= 24 => format!("{k}={x};"), _ => format!("{k};") }).collect::<String>(), _ => String::new() };
+            let n = o.classes.entry(class).or_insert(0);
+            *n += 1;
+            if o.failures.len() < 300 || (*n <= 25 && o.failures.len() < 3000) { o.failures.push((c, detail())); } else { o.dropped += 1; }
+        }
     }
     pub fn to_json(&self) -> Value {
         let mut obs = serde_json::Map::new();
         for (k, o) in &self.obligations {
             obs.insert(k.clone(), json!({
                 "cases": o.cases, "function": o.function,
-                "failures": o.failures.iter().filter(|(c, _)| !c.is_null()).map(|(c, d)| json!({"case": c, "detail": d})).collect::<Vec<_>>(),
-                "failure_count": o.failures.len(),
+                "failures": o.failures.iter().map(|(c, d)| json!({"case": c, "detail": d})).collect::<Vec<_>>(),
+                "failure_count": o.failures.len() as u64 + o.dropped,
             }));
         }
         json!({"set": self.set, "domain": self.domain, "exhaustive": self.exhaustive, "functions": self.functions,
